@@ -12,6 +12,7 @@ import (
 	"io"
 	"log"
 	"os"
+	goruntime "runtime"
 	"strings"
 	"sync"
 
@@ -150,7 +151,17 @@ func main() {
 		if r.Thorough() {
 			pb, db = 2, 2
 		}
-		m, err := sched.RunSharded(sc.Name, pb, db)
+		maxFree := 0
+		if sc.Twin {
+			// four threads blocking on pipes: the free scheduling choices are bounded as well
+			maxFree = 1
+			if r.Thorough() {
+				maxFree = 2
+			} else if sc.Reuse {
+				continue // the faulty twin scenario is explored in the thorough tier only
+			}
+		}
+		m, err := sched.RunShardedFree(sc.Name, pb, db, goruntime.NumCPU(), maxFree)
 		if err != nil {
 			fmt.Fprintln(os.Stderr, "internal error:", err)
 			os.Exit(2)
